@@ -34,7 +34,8 @@ func init() {
 // alphabet
 
 var alphabet = []string{"(", ")", "[", "]", "'", "#'", "#^", "a", "b", ":k", "1", "2.0", "#xFF", `"s\t"`, `"""r"""`, "-",
-	"\"\"\"r\n r\"\"\""} // index 16: a two-line raw string, only in the sub-spaces that list it
+	"\"\"\"r\n r\"\"\"",          // index 16: a two-line raw string, only in the sub-spaces that list it
+	"lisp:function", "lisp:expr"} // 17, 18: the heads of the longhand prefix forms, only in the sub-spaces that list them
 
 const baseTokens = 16
 
@@ -161,6 +162,7 @@ func allConfigs() []namedCfg {
 		{"default", formatter.DefaultConfig()},
 		{"compact", mk(func(c *formatter.Config) { c.Compact = true })},
 		{"compact+strip", mk(func(c *formatter.Config) { c.Compact, c.StripComments = true, true })},
+		{"strip", mk(func(c *formatter.Config) { c.StripComments = true })},
 		{"indent4", mk(func(c *formatter.Config) { c.IndentSize = 4 })},
 		{"blank0", mk(func(c *formatter.Config) { c.MaxBlankLines = 0 })},
 		{"blank2", mk(func(c *formatter.Config) { c.MaxBlankLines = 2 })},
@@ -294,6 +296,24 @@ type kase struct {
 	Text  string `json:"text"`
 	Cfg   string `json:"cfg,omitempty"`
 	Real  bool   `json:"real"`
+	// Cfgs is the configuration list the text was checked under when Cfg names a
+	// family ("noncompact", ...) instead of one configuration.
+	Cfgs []string `json:"cfgs,omitempty"`
+}
+
+// cfgsFor resolves the configurations a case is re-run under.
+func cfgsFor(cfg string, list []string) []namedCfg {
+	if c, ok := cfgByName(cfg); ok {
+		return []namedCfg{c}
+	}
+	if len(list) == 0 {
+		return allConfigs()
+	}
+	var like []namedCfg
+	for _, n := range list {
+		like = append(like, namedCfg{name: n})
+	}
+	return ownCfgSet(like).cfgs
 }
 
 type explorer struct {
@@ -303,20 +323,22 @@ type explorer struct {
 }
 
 // report re-confirms a finding five times through both entry points and files it.
-func (e *explorer) report(sp string, text string, f finding) {
+func (e *explorer) report(sp string, text string, f finding, under []namedCfg) {
 	class := f.Cfg + "/" + f.Class
 	e.mu.Lock()
 	e.reported[class]++
 	n := e.reported[class]
 	e.mu.Unlock()
-	if n > 3 {
+	if n > 2 { // two recorded cases per class: core stops a run at 40 recorded violations, known findings included
 		return
 	}
 	k := kase{Space: sp, Text: text, Cfg: f.Cfg, Real: true}
-	cfgs := allConfigs()
-	if c, ok := cfgByName(f.Cfg); ok {
-		cfgs = []namedCfg{c}
+	if _, single := cfgByName(f.Cfg); !single {
+		for _, c := range under {
+			k.Cfgs = append(k.Cfgs, c.name)
+		}
 	}
+	cfgs := cfgsFor(k.Cfg, k.Cfgs)
 	hits := 0
 	for i := 0; i < 5; i++ {
 		fs, _ := checkGuarded(text, ownCfgSet(cfgs), true, true)
@@ -348,6 +370,56 @@ func (e *explorer) report(sp string, text string, f finding) {
 	default:
 		e.r.Flaky(map[string]any{"case": k, "class": class, "hits": hits})
 	}
+}
+
+// leaf checks one text with the worker's private configurations and books the result.
+func (e *explorer) leaf(w *wstats, space, text string, real bool) (accepted, interesting bool) {
+	fs, st := checkGuarded(text, w.set, real, false)
+	w.texts++
+	if real {
+		// formatter.Format allocates a 128 KiB scanner buffer per call; on a
+		// loaded machine the concurrent collector falls behind that rate, so
+		// collect explicitly every few hundred calls
+		if w.sinceGC += st.formats; w.sinceGC > 400 {
+			runtime.GC()
+			w.sinceGC = 0
+		}
+	}
+	w.formats += int64(st.formats)
+	w.comparisons += int64(st.comparisons)
+	if st.accepted {
+		w.accepted++
+		accepted = true
+		if st.comments > 0 {
+			w.withComment++
+		}
+		if st.outcome == "accepted/reformatted" {
+			w.reformatted++
+			if st.comments > 0 {
+				interesting = true
+			}
+		}
+		nc := st.comments
+		if nc > 3 {
+			nc = 3
+		}
+		oc := fmt.Sprintf("%s comments=%d findings=%d", st.outcome, nc, len(fs))
+		w.outcomes[oc]++
+		if len(w.samples) < 2 && st.comments > 0 && st.nodes > 1 && st.outcome == "accepted/reformatted" {
+			w.samples = append(w.samples, kase{Space: space, Text: text})
+		}
+	} else {
+		w.rejected++
+		w.outcomes[st.outcome]++
+	}
+	for _, f := range fs {
+		cl := f.Cfg + "/" + f.Class
+		w.classes[cl]++
+		if w.classes[cl] <= 2 {
+			e.report(space, text, f, w.set.cfgs)
+		}
+	}
+	return accepted, interesting
 }
 
 // ---------------------------------------------------------------------------
@@ -407,51 +479,9 @@ func (e *explorer) explore(s spec, workers []*wstats) {
 			rec = func(slot, heavy int, buf []byte) {
 				if slot > L {
 					text := string(buf)
-					fs, st := checkGuarded(text, w.set, s.Real, false)
-					w.texts++
-					if s.Real {
-						// formatter.Format allocates a 128 KiB scanner buffer per call; on a
-						// loaded machine the concurrent collector falls behind that rate, so
-						// collect explicitly every few hundred calls
-						if w.sinceGC += st.formats; w.sinceGC > 400 {
-							runtime.GC()
-							w.sinceGC = 0
-						}
-					}
-					w.formats += int64(st.formats)
-					w.comparisons += int64(st.comparisons)
-					if st.accepted {
-						w.accepted++
-						seqAccepted = true
-						if st.comments > 0 {
-							w.withComment++
-						}
-						if st.outcome == "accepted/reformatted" {
-							w.reformatted++
-							if st.comments > 0 {
-								seqInteresting = true
-							}
-						}
-						nc := st.comments
-						if nc > 3 {
-							nc = 3
-						}
-						oc := fmt.Sprintf("%s comments=%d findings=%d", st.outcome, nc, len(fs))
-						w.outcomes[oc]++
-						if len(w.samples) < 2 && st.comments > 0 && st.nodes > 1 && st.outcome == "accepted/reformatted" {
-							w.samples = append(w.samples, kase{Space: s.Name, Text: text})
-						}
-					} else {
-						w.rejected++
-						w.outcomes[st.outcome]++
-					}
-					for _, f := range fs {
-						cl := f.Cfg + "/" + f.Class
-						w.classes[cl]++
-						if w.classes[cl] <= 3 {
-							e.report(s.Name, text, f)
-						}
-					}
+					acc, intr := e.leaf(w, s.Name, text, s.Real)
+					seqAccepted = seqAccepted || acc
+					seqInteresting = seqInteresting || intr
 					return
 				}
 				try := func(k int, isHeavy bool) {
@@ -548,11 +578,13 @@ func run(r *core.Run) {
 	realCfgs := pickCfgs("default", "compact", "compact+strip")
 	var specs []spec
 	small := []int{0, 1, 2, 3, 4, 5, 6, 7, 10} // ( ) [ ] ' #' #^ a 1
+	base7 := []int{tvNone, tvSpace, tvNL, tvBlank, tvSame, tvOwn, tvPara}
 	lightX := append(append([]int{}, light...), tvTwoSp)
+	longhand := []int{0, 1, 2, 3, 4, 17, 18, 7, 10}         // ( ) [ ] ' lisp:function lisp:expr a 1
 	ltAll := append(append([]int{}, heavy...), lineTerm...) // LF comments and blank lines + the whole line-terminator family
 	lt15 := []int{tvSame, tvOwn, tvCRLF, tvCR, tvTab, tvFF, tvLFCR, tvSameCRLF, tvSameCR, tvOwnCRLF, tvOwnCR, tvOwnLFCR, tvParaCRLF, tvSameTab, tvSameCRCRLF}
 	const hbCRLF = "#!/usr/bin/env elps\r\n"
-	wide := make([]int, len(alphabet)) // the 16 tokens plus the two-line raw string
+	wide := make([]int, baseTokens+1) // the 16 tokens plus the two-line raw string
 	for i := range wide {
 		wide[i] = i
 	}
@@ -565,6 +597,7 @@ func run(r *core.Run) {
 			// line terminators (no pruning here: a comment ended by a bare CR runs on to the next LF and can swallow brackets)
 			{Name: "Q5-L<=2-line-terminators", MinL: 0, MaxL: 2, Light: light, Heavy: ltAll, MaxHeavy: 2, EndExtra: endX, HashBang: []bool{false, true}, HBLine: hbCRLF, Cfgs: all},
 			{Name: "Q6-L3-line-terminators", MinL: 3, MaxL: 3, Glue: true, Heavy: lt15, MaxHeavy: 2, EndExtra: endX, HashBang: []bool{false}, Cfgs: all},
+			{Name: "Q8-L4-longhand-alphabet", MinL: 4, MaxL: 4, Glue: true, Heavy: heavy, MaxHeavy: 2, EndExtra: endX, HashBang: []bool{false}, Cfgs: all, Prune: true, Alpha: longhand},
 			{Name: "Q7-L<=2-line-terminators-real-entry", MinL: 0, MaxL: 2, Glue: true, Heavy: ltAll, MaxHeavy: 2, EndExtra: endX, HashBang: []bool{false}, Cfgs: realCfgs, Real: true},
 		}
 	} else {
@@ -579,6 +612,7 @@ func run(r *core.Run) {
 			{Name: "T7-L<=2-line-terminators", MinL: 0, MaxL: 2, Light: lightX, Heavy: ltAll, MaxHeavy: 99, EndExtra: endX, HashBang: []bool{false, true}, HBLine: hbCRLF, Cfgs: all, Alpha: wide},
 			{Name: "T8-L3-line-terminators", MinL: 3, MaxL: 3, Glue: true, GlueNL: true, Heavy: ltAll, MaxHeavy: 2, EndExtra: endX, HashBang: []bool{false}, Cfgs: all},
 			{Name: "T9-L4-line-terminators", MinL: 4, MaxL: 4, Glue: true, Heavy: []int{tvCRLF, tvCR, tvTab, tvSameCRLF, tvSameCR, tvOwnCRLF, tvOwnCR, tvSameCRCRLF}, MaxHeavy: 2, HashBang: []bool{false}, Cfgs: all},
+			{Name: "T11-L<=5-longhand-alphabet", MinL: 4, MaxL: 5, Glue: true, GlueNL: true, Heavy: heavy, MaxHeavy: 2, EndExtra: endX, HashBang: []bool{false}, Cfgs: all, Prune: true, Alpha: longhand},
 			{Name: "T10-L<=2-line-terminators-real-entry", MinL: 0, MaxL: 2, Glue: true, Heavy: ltAll, MaxHeavy: 2, EndExtra: endX, HashBang: []bool{false, true}, HBLine: hbCRLF, Cfgs: realCfgs, Real: true, Alpha: wide},
 		}
 	}
@@ -609,7 +643,7 @@ func run(r *core.Run) {
 	r.Assume("pruned sub-spaces: a token sequence whose brackets do not nest is rendered under the light trivia only; heavy trivia contain no bracket, quote or string characters and end in a newline, so they cannot repair it")
 	r.Assume("most of the space is driven through rdparser.NewFormatting(NewScannerString)+formatter.FormatProgram (what Format does minus the 128 KiB scanner buffer); the 'real' sub-spaces call formatter.Format itself and require byte-identical results")
 	r.Assume("every configuration object is private to one worker, snapshotted, compared with the snapshot after every text (fields, table size, every rule object; the key-by-key table comparison on every 32nd text and always in the form space and the tables) and restored if it changed, so every text starts from a pristine *Config; given that, a pass with a reused *Config equals a pass with a fresh one, which the form space also checks explicitly")
-	r.Assume("StripComments without Compact is not named by the statement and is not checked; blank-line placement and indentation are free (only trees, comments and idempotence are asserted)")
+	r.Assume("StripComments without Compact (configuration strip) is checked for trees and idempotence only; blank-line placement and indentation are free (only trees, comments and idempotence are asserted)")
 
 	perSpace := map[string]any{}
 	sum := func() (t, a int64) {
@@ -628,6 +662,22 @@ func run(r *core.Run) {
 			depth, name, forms = 3, "TF-top-level-form-triples", forms[:len(forms)/len(formNests)]
 		}
 		e.exploreFormsTimed(name, depth, forms, workers, perSpace, sum)
+	}
+	// the longhand prefix-form space (prefix.go)
+	if !r.Expired() {
+		t0, a0 := sum()
+		start, cpu0 := time.Now(), cpuSeconds()
+		debug.SetGCPercent(800)
+		name := "QP-longhand-prefix-forms"
+		if r.Thorough() {
+			name = "TP-longhand-prefix-forms"
+			e.explorePrefix(name, prefixOperands, append(append([]int{}, base7...), tvTwoSp), []int{tvNone, tvOwn}, []int{tvNone, tvNL, tvSame}, all, workers)
+		} else {
+			e.explorePrefix(name, []string{"a", "a:b", "1", `"s\t"`, "()", "(a)", "(a b)", "'a"}, base7, []int{tvNone}, []int{tvNone}, all, workers)
+		}
+		t1, a1 := sum()
+		perSpace[name] = map[string]any{"texts": t1 - t0, "accepted": a1 - a0, "wall_s": time.Since(start).Seconds(), "cpu_s": cpuSeconds() - cpu0}
+		fmt.Fprintf(os.Stderr, "c16: %s done: %d texts, %d accepted, %.0fs wall, %.0fs cpu, %d violations so far\n", name, t1-t0, a1-a0, time.Since(start).Seconds(), cpuSeconds()-cpu0, r.ViolationCount())
 	}
 	for _, s := range specs {
 		if r.Expired() {
@@ -670,7 +720,7 @@ func run(r *core.Run) {
 		ws.outcomes["extra:"+st.outcome]++
 		for _, f := range fs {
 			ws.classes[f.Cfg+"/"+f.Class]++
-			e.report("tables", t, f)
+			e.report("tables", t, f, tabSet.cfgs)
 		}
 	}
 
@@ -752,10 +802,7 @@ func replay(v core.Violation) (bool, string) {
 	if err != nil {
 		return false, err.Error()
 	}
-	cfgs := allConfigs()
-	if c, ok := cfgByName(k.Cfg); ok {
-		cfgs = []namedCfg{c}
-	}
+	cfgs := cfgsFor(k.Cfg, k.Cfgs)
 	fs, st := checkGuarded(k.Text, ownCfgSet(cfgs), k.Real, true)
 	var sb strings.Builder
 	fmt.Fprintf(&sb, "text: %q\nstrict reader accepts: %v\n", k.Text, st.accepted)
